@@ -12,7 +12,6 @@ Definition run_case (line : bytes) : bytes :=
        | Some text =>
          show_res (fun r =>
            (* the rule is the only match, so it is the basic rule of the result *)
-           let basic := mr_basic (new_matching_result [r] []) in
-           dec_of_N (get_cosmetic_option (option_map (fun b => (nr_whitelist b, nr_enabled b)) basic)))
+           dec_of_N (result_cosmetic_option (new_matching_result [r] [])))
            (new_network_rule text 1%Z)
        end.
